@@ -21,6 +21,25 @@
 //!  * slot recovery as bounded progress: after all handlers exited, `cap` new parked requests are
 //!    all admitted (Started event while parked) within a bounded number of retries on ec 8, the
 //!    gauge then reads exactly `cap`, and one more request is again rejected.
+//!
+//! Two further scenario families run first (`--stage notify-fill` / `--stage flood` run them alone):
+//!  * notify-fill — caps 1..4 × every request/notify pattern of the admitted set with ≥ 1 notify (plus named
+//!    shapes such as cap 2 = one request + three notifies, cap 3 = four notifies): admitted NOTIFY handlers
+//!    park on gates and count in the gauge like requests, over-cap requests / notifies that arrive while
+//!    notify handlers hold the slots are rejected with ec 8 / dropped before any gate opens, and every
+//!    notify exit gives its slot back at once (a new parked request is admitted within bounded retries,
+//!    one more is rejected again);
+//!  * flood — `with_outbound_capacity(c)`, c ∈ {1, 2, 4, 8, default} × caps 1..4: once the cap is saturated
+//!    the client writes K ≫ c over-cap requests (+ inline pings, + over-cap notifies) in ONE flush while it
+//!    does NOT read its socket; in the `push-N` variant the harness first pushes N-KiB notifies through the
+//!    connection's `PeerHandle` until the bounded outbound queue reports Full and stays Full (writer stuck
+//!    on the unread socket), so the tail meets a saturated cap AND a full outbound queue.  Reading starts
+//!    only after the on_error saturation count covered the whole tail or stopped moving.  Oracle: every
+//!    over-cap request is still answered exactly once with ec 8 and its id, every ping with its pong, in
+//!    a heartbeat-gated window and before any gate is opened ("C16:over-cap-request-never-answered:
+//!    outbound-queue-full" / ":unread-pipelined-burst"); then the normal release / recovery phases run.
+//! A quarter of the random cases also run with a tiny outbound capacity (client reading normally).
+//!
 //! Anything that depends on the machine making progress (15 s windows) is inconclusive when the
 //! heartbeat saw a stall.
 
@@ -28,7 +47,7 @@ use crate::common::*;
 use crate::oracle::{self, SpecHeader};
 use futures_util::{SinkExt, StreamExt};
 use repe::server::{HandlerErased, Middleware, Next, Router};
-use repe::{CallContext, ConnectionError, ErrorCode, Execution, Message, RepeError, WebSocketServer};
+use repe::{CallContext, ConnectionError, ErrorCode, Execution, Message, NotifyBody, PeerHandle, PeerSendError, RepeError, WebSocketServer};
 use serde_json::{Value, json};
 use std::collections::{HashMap, HashSet};
 use std::sync::atomic::{AtomicU64, Ordering};
@@ -83,6 +102,39 @@ enum Item {
     Ping,
 }
 
+/// How the part of the burst that follows the admitted prefix is delivered.
+#[derive(Clone, Copy, Debug, Hash, PartialEq, Eq)]
+enum Fill {
+    /// the whole burst in one flush while the client reads normally
+    None,
+    /// admitted prefix first (wait for the handlers to park), then the whole tail in ONE flush while the
+    /// client does NOT read its socket; reading starts only after the server had time to process the tail
+    Unread,
+    /// like `Unread`, and before the tail the harness pushes notifies of this many KiB through the
+    /// connection's `PeerHandle` until the bounded outbound queue reports Full and stays Full (the
+    /// writer is stuck on a socket nobody reads): the tail then meets a cap that is saturated AND an
+    /// outbound queue that is full
+    Push(u32),
+}
+impl Fill {
+    fn name(self) -> String {
+        match self {
+            Fill::None => "none".into(),
+            Fill::Unread => "unread".into(),
+            Fill::Push(k) => format!("push-{k}"),
+        }
+    }
+    fn from(s: &str) -> Fill {
+        match s {
+            "unread" => Fill::Unread,
+            _ => match s.strip_prefix("push-").and_then(|k| k.parse().ok()) {
+                Some(k) => Fill::Push(k),
+                None => Fill::None,
+            },
+        }
+    }
+}
+
 #[derive(Clone, Debug, Hash)]
 struct Script {
     burst: Vec<Item>,
@@ -90,6 +142,10 @@ struct Script {
     release: Vec<usize>,
     /// seed of the in-flight choices (refills, interleaved pings, instant batch, recovery outcomes)
     seed: u64,
+    fill: Fill,
+    /// after every exit of an admitted NOTIFY handler demand the freed slot back at once (one new parked
+    /// request admitted within bounded retries) and check that one more request is rejected again
+    refill_after_notify: bool,
 }
 
 #[derive(Clone, Debug, Hash)]
@@ -100,7 +156,11 @@ struct Case {
     mw: u8, // 0 none, 1 one middleware registered before the routes, 2 one before + one after
     scripts: Vec<Script>,
     exhaustive: bool,
+    /// `with_outbound_capacity(..)`; 0 = the library default
+    outbound: usize,
+    family: &'static str,
 }
+const FAMILIES: [&str; 5] = ["exhaustive", "random", "notify-fill", "flood", "replay"];
 
 fn item_str(i: &Item) -> String {
     match i {
@@ -120,8 +180,10 @@ fn item_from(s: &str) -> Item {
 fn case_json(c: &Case) -> Value {
     json!({
         "cap": c.cap, "use_default_cap": c.use_default_cap, "route": ROUTES[c.route], "mw": c.mw, "exhaustive": c.exhaustive,
+        "outbound_capacity_0_is_default": c.outbound, "family": c.family,
         "scripts": c.scripts.iter().map(|s| json!({
-            "burst": s.burst.iter().map(item_str).collect::<Vec<_>>(), "release": s.release, "seed": s.seed.to_string()
+            "burst": s.burst.iter().map(item_str).collect::<Vec<_>>(), "release": s.release, "seed": s.seed.to_string(),
+            "fill": s.fill.name(), "refill_after_notify": s.refill_after_notify
         })).collect::<Vec<_>>(),
     })
 }
@@ -133,6 +195,8 @@ fn case_from_json(v: &Value) -> Option<Case> {
             burst: s["burst"].as_array().map(|a| a.iter().map(|x| item_from(x.as_str().unwrap_or("ping"))).collect()).unwrap_or_default(),
             release: s["release"].as_array().map(|a| a.iter().map(|x| x.as_u64().unwrap_or(0) as usize).collect()).unwrap_or_default(),
             seed: s["seed"].as_str().and_then(|x| x.parse().ok()).unwrap_or(1),
+            fill: Fill::from(s["fill"].as_str().unwrap_or("none")),
+            refill_after_notify: s["refill_after_notify"].as_bool().unwrap_or(false),
         })
         .collect();
     Some(Case {
@@ -142,6 +206,8 @@ fn case_from_json(v: &Value) -> Option<Case> {
         mw: v["mw"].as_u64().unwrap_or(0) as u8,
         scripts,
         exhaustive: v["exhaustive"].as_bool().unwrap_or(false),
+        outbound: v["outbound_capacity_0_is_default"].as_u64().unwrap_or(0) as usize,
+        family: FAMILIES.iter().copied().find(|f| Some(*f) == v["family"].as_str()).unwrap_or("replay"),
     })
 }
 
@@ -190,12 +256,124 @@ fn random_script(r: &mut Rng, cap: usize) -> Script {
     let adm = admitted_count(cap, &burst);
     let mut release: Vec<usize> = (0..adm).collect();
     r.shuffle(&mut release);
-    Script { burst, release, seed: r.next_u64() }
+    Script { burst, release, seed: r.next_u64(), fill: Fill::None, refill_after_notify: false }
+}
+
+/// (n) slots held by NOTIFY handlers: caps 1..4 × every request/notify pattern of the admitted set that has
+/// at least one notify, followed by over-cap requests and notifies (which must be rejected / dropped while
+/// notify handlers hold the slots); every notify exit must give its slot back at once.
+fn notify_fill_cases(rng: &mut Rng, args: &Args) -> Vec<Case> {
+    let mut cases = vec![];
+    let mut push = |rng: &mut Rng, cap: usize, admitted: Vec<Item>, tail: Vec<Item>, outbound: usize| {
+        let mut parks = admitted;
+        parks.extend(tail);
+        let pings = 1 + rng.usize_below(3);
+        let burst = interleave(rng, parks, pings);
+        let mut release: Vec<usize> = (0..cap).collect();
+        rng.shuffle(&mut release);
+        cases.push(Case {
+            cap,
+            use_default_cap: false,
+            route: rng.usize_below(ROUTES.len()),
+            mw: rng.below(3) as u8,
+            scripts: vec![Script { burst, release, seed: rng.next_u64(), fill: Fill::None, refill_after_notify: true }],
+            exhaustive: false,
+            outbound,
+            family: "notify-fill",
+        });
+    };
+    let req = |o: Out| Item::Park { out: o, notify: false };
+    let ntf = |o: Out| Item::Park { out: o, notify: true };
+    // named shapes: more overlapping notifies than free slots
+    let o = |r: &mut Rng| Out::pick(r);
+    let named: Vec<(usize, Vec<Item>, Vec<Item>)> = vec![
+        (1, vec![ntf(o(rng))], vec![ntf(o(rng)), req(o(rng))]),
+        (2, vec![req(o(rng)), ntf(o(rng))], vec![ntf(o(rng)), ntf(o(rng)), req(o(rng))]),
+        (2, vec![ntf(o(rng)), ntf(o(rng))], vec![req(o(rng)), ntf(o(rng)), req(o(rng))]),
+        (3, vec![ntf(o(rng)), ntf(o(rng)), ntf(o(rng))], vec![ntf(o(rng)), req(o(rng))]),
+        (4, vec![req(o(rng)), ntf(o(rng)), req(o(rng)), ntf(o(rng))], vec![ntf(o(rng)), ntf(o(rng)), req(o(rng))]),
+    ];
+    for (cap, a, t) in named {
+        push(rng, cap, a, t, 0);
+    }
+    let variants = args.budget(2, 10).max(1);
+    for v in 0..variants {
+        for cap in 1..=4usize {
+            for pat in 1..(1u32 << cap) {
+                let admitted: Vec<Item> = (0..cap).map(|i| Item::Park { out: Out::pick(rng), notify: (pat >> i) & 1 == 1 }).collect();
+                let mut tail = vec![req(Out::pick(rng)), ntf(Out::pick(rng))];
+                for _ in 0..rng.usize_below(2 * cap + 1) {
+                    tail.push(Item::Park { out: Out::pick(rng), notify: rng.coin() });
+                }
+                rng.shuffle(&mut tail);
+                let outbound = if v % 2 == 1 { [1usize, 2, 4, 8][rng.usize_below(4)] } else { 0 };
+                push(rng, cap, admitted, tail, outbound);
+            }
+        }
+    }
+    cases
+}
+
+/// (f) a saturated cap meets a full bounded outbound queue: outbound capacity {1,2,4,8,default} × caps 1..4 ×
+/// {tail written in one flush to a client that does not read, the same with the queue pre-filled by large
+/// pushed notifies}; K ≫ capacity over-cap requests, interleaved inline pings and over-cap notifies.
+fn flood_cases(rng: &mut Rng, args: &Args) -> Vec<Case> {
+    let mut cases = vec![];
+    let variants = args.budget(1, 6).max(1);
+    for _ in 0..variants {
+        for &oc in &[1usize, 2, 4, 8, 0] {
+            for cap in 1..=4usize {
+                for push in [false, true] {
+                    let k = match (oc, push) {
+                        (0, true) => 24 + rng.usize_below(40),
+                        (0, false) => 280 + rng.usize_below(40),
+                        _ => (8 * oc + rng.usize_below(8 * oc + 1)).clamp(12, 96),
+                    };
+                    let mut parks: Vec<Item> = (0..cap).map(|_| Item::Park { out: Out::pick(rng), notify: rng.chance(1, 3) }).collect();
+                    let mut tail: Vec<Item> = (0..k).map(|_| Item::Park { out: Out::pick(rng), notify: false }).collect();
+                    for _ in 0..(k / 8 + 1) {
+                        tail.push(Item::Park { out: Out::pick(rng), notify: true });
+                    }
+                    rng.shuffle(&mut tail);
+                    parks.extend(tail);
+                    let burst = interleave(rng, parks, k / 6 + 1);
+                    let mut release: Vec<usize> = (0..cap).collect();
+                    rng.shuffle(&mut release);
+                    let fill = if push { Fill::Push(if oc == 0 { 16 } else { 128 }) } else { Fill::Unread };
+                    cases.push(Case {
+                        cap,
+                        use_default_cap: false,
+                        route: rng.usize_below(ROUTES.len()),
+                        mw: rng.below(3) as u8,
+                        scripts: vec![Script { burst, release, seed: rng.next_u64(), fill, refill_after_notify: rng.coin() }],
+                        exhaustive: false,
+                        outbound: oc,
+                        family: "flood",
+                    });
+                }
+            }
+        }
+    }
+    cases
 }
 
 fn plan(args: &Args) -> Vec<Case> {
     let mut rng = Rng::new(args.seed ^ 0xC16);
     let mut cases = vec![];
+    // (n) + (f) come first so that they always run inside the wall budget
+    {
+        let mut r2 = Rng::new(args.seed ^ 0xC16_00F1);
+        let nf = notify_fill_cases(&mut r2, args);
+        let fl = flood_cases(&mut r2, args);
+        // `--stage notify-fill` / `--stage flood` run one of the two families alone (debugging, sensitivity runs)
+        match args.stage.as_str() {
+            "notify-fill" => return nf,
+            "flood" => return fl,
+            _ => {}
+        }
+        cases.extend(nf);
+        cases.extend(fl);
+    }
     // (a) exhaustive: caps 1..3 × every outcome assignment of the admitted handlers × every release order.
     // Thorough additionally enumerates request/notify for every admitted handler.
     for cap in 1..=3usize {
@@ -229,8 +407,10 @@ fn plan(args: &Args) -> Vec<Case> {
                     use_default_cap: false,
                     route: rng.usize_below(ROUTES.len()),
                     mw: rng.below(3) as u8,
-                    scripts: vec![Script { burst, release: perm.clone(), seed: rng.next_u64() }],
+                    scripts: vec![Script { burst, release: perm.clone(), seed: rng.next_u64(), fill: Fill::None, refill_after_notify: false }],
                     exhaustive: true,
+                    outbound: 0,
+                    family: "exhaustive",
                 });
             }
         }
@@ -258,6 +438,9 @@ fn plan(args: &Args) -> Vec<Case> {
             mw: rng.below(3) as u8,
             scripts,
             exhaustive: false,
+            // a quarter of the random cases run with a tiny bounded outbound queue (client reads normally)
+            outbound: if rng.chance(1, 4) { [1usize, 2, 4, 8][rng.usize_below(4)] } else { 0 },
+            family: "random",
         });
     }
     cases
@@ -274,6 +457,8 @@ struct Shared {
     gauges: Mutex<HashMap<u64, (u64, u64)>>, // conn → (running, max)
     gates: Mutex<HashMap<u64, std::sync::mpsc::Receiver<()>>>,
     ev: Mutex<HashMap<u64, UnboundedSender<Ev>>>, // conn → driver
+    /// every peer handed to `on_peer_connect` (the flood scenarios push through it)
+    peers: Mutex<Vec<PeerHandle>>,
     mw_calls: AtomicU64,
     ctx_peer_seen: AtomicU64,
     gate_timeouts: AtomicU64,
@@ -288,6 +473,7 @@ impl Shared {
             gauges: Mutex::new(HashMap::new()),
             gates: Mutex::new(HashMap::new()),
             ev: Mutex::new(HashMap::new()),
+            peers: Mutex::new(vec![]),
             mw_calls: AtomicU64::new(0),
             ctx_peer_seen: AtomicU64::new(0),
             gate_timeouts: AtomicU64::new(0),
@@ -460,6 +646,41 @@ struct Stats {
     started_events: u64,
     saturations_reached: u64,
     recovery_probe_rejected: u64,
+    notify_handlers_parked: u64,
+    saturations_with_notify_slots: u64,
+    refills_after_notify_exit: u64,
+    probes_rejected_after_notify_refill: u64,
+    flood_scripts: u64,
+    flood_tail_requests: u64,
+    flood_tail_rejected_ec8: u64,
+    flood_tail_pings_answered: u64,
+    flood_saturations_seen_before_first_read: u64,
+    flood_tails_fully_processed_before_first_read: u64,
+    flood_reader_stalled_on_full_queue: u64,
+    push_fills_reached_full: u64,
+    push_fills_gave_up: u64,
+    pushed_sent: u64,
+    pushed_bytes: u64,
+    pushed_received: u64,
+    pushed_full_results: u64,
+}
+impl Stats {
+    fn add(&mut self, o: &Stats, capped: bool) {
+        macro_rules! sum { ($($f:ident),*) => { $( self.$f += o.$f; )* } }
+        sum!(
+            frames, admitted, overcap_requests_rejected, overcap_notifies, pings_answered_during_saturation, pings_answered,
+            panic_replies, error_replies, return_replies, refills, instants, instants_rejected, recovered_slots, retries,
+            rejects_seen, started_events, saturations_reached, recovery_probe_rejected, notify_handlers_parked,
+            saturations_with_notify_slots, refills_after_notify_exit, probes_rejected_after_notify_refill, flood_scripts,
+            flood_tail_requests, flood_tail_rejected_ec8, flood_tail_pings_answered, flood_saturations_seen_before_first_read,
+            flood_tails_fully_processed_before_first_read, flood_reader_stalled_on_full_queue, push_fills_reached_full,
+            push_fills_gave_up, pushed_sent, pushed_bytes, pushed_received, pushed_full_results
+        );
+        self.max_retries = self.max_retries.max(o.max_retries);
+        if capped {
+            self.gauge_max = self.gauge_max.max(o.gauge_max);
+        }
+    }
 }
 
 struct Drv {
@@ -470,6 +691,8 @@ struct Drv {
     conn: u64,
     cap: usize,
     tag: String,
+    /// tokens of pushed notifies accepted by the outbound queue and not yet seen on the wire
+    pushed: HashSet<u64>,
     next_id: u64,
     next_tok: u64,
     pending: HashMap<u64, Exp>,
@@ -629,6 +852,15 @@ impl Drv {
             self.pending.remove(&h.id);
             return;
         }
+        if h.notify != 0 && &b[oracle::HDR..oracle::HDR + ql] == b"/pushed" {
+            // a notify the harness itself pushed through the PeerHandle: {"push":<tok>,"pad":"pp.."}
+            let tok = body.strip_prefix(b"{\"push\":").map(|r| r.iter().take_while(|c| c.is_ascii_digit()).fold(0u64, |a, c| a.wrapping_mul(10).wrapping_add((c - b'0') as u64)));
+            match tok {
+                Some(t) if self.pushed.remove(&t) => self.st.pushed_received += 1,
+                _ => self.viol("C16:unexpected-notify-frame", format!("a /pushed notify arrived that the harness did not push (or arrived twice): body {:?}", String::from_utf8_lossy(&body[..body.len().min(40)]))),
+            }
+            return;
+        }
         if h.notify != 0 || self.notify_ids.contains(&h.id) {
             let sig = if self.notify_ids.contains(&h.id) { "C16:notify-produced-frame" } else { "C16:unexpected-notify-frame" };
             self.viol(sig, format!("frame id {} notify {} ec {} body {:?} (a notify must never be answered; cap {})", h.id, h.notify, h.ec, String::from_utf8_lossy(&body[..body.len().min(80)]), self.cap));
@@ -701,6 +933,111 @@ impl Drv {
                     }
                 }
             }
+        }
+    }
+
+    /// Wait (handler events only — the socket is NOT read) until `toks` have all started.
+    async fn await_started_unread(&mut self, toks: &[u64]) -> bool {
+        let dl = Instant::now() + WINDOW;
+        while !toks.iter().all(|t| self.started.contains(t)) && self.viols.is_empty() {
+            let left = dl.saturating_duration_since(Instant::now());
+            if left.is_zero() {
+                return false;
+            }
+            match tokio::time::timeout(left, self.ev_rx.recv()).await {
+                Ok(Some(e)) => self.on_event(e),
+                Ok(None) => {
+                    self.closed = Some("event channel closed".into());
+                    return false;
+                }
+                Err(_) => return false,
+            }
+        }
+        self.viols.is_empty()
+    }
+
+    fn drain_events(&mut self) {
+        while let Ok(e) = self.ev_rx.try_recv() {
+            self.on_event(e);
+        }
+    }
+
+    /// Push notifies of `kib` KiB through the connection's PeerHandle until the bounded outbound queue
+    /// answers Full five times in a row over ≥ 40 ms (the writer is stuck on the unread socket).
+    /// Ok(true) = the queue is full and stays full; Ok(false) = could not be filled (scenario goes on
+    /// as a plain unread burst); Err = harness trouble.
+    async fn fill_outbound(&mut self, kib: u32) -> Result<bool, String> {
+        let peer = {
+            let p = self.sh.peers.lock().unwrap_or_else(|e| e.into_inner());
+            if p.len() != 1 {
+                return Err(format!("{} peers seen by on_peer_connect, expected exactly one", p.len()));
+            }
+            p[0].clone()
+        };
+        let pad = "p".repeat(kib as usize * 1024);
+        let t0 = Instant::now();
+        let (mut fulls, mut bytes, mut sent) = (0u32, 0u64, 0u64);
+        loop {
+            if t0.elapsed() > Duration::from_secs(6) || bytes > 96 << 20 {
+                self.st.push_fills_gave_up += 1;
+                return Ok(false);
+            }
+            let tok = self.new_tok();
+            let body = format!("{{\"push\":{tok},\"pad\":\"{pad}\"}}").into_bytes();
+            let n = body.len() as u64;
+            match peer.send_notify("/pushed", NotifyBody::Json(body)) {
+                Ok(()) => {
+                    self.pushed.insert(tok);
+                    self.st.pushed_sent += 1;
+                    self.st.pushed_bytes += n;
+                    bytes += n;
+                    sent += 1;
+                    fulls = 0;
+                    if sent % 8 == 0 {
+                        tokio::task::yield_now().await;
+                    }
+                }
+                Err(PeerSendError::Full) => {
+                    self.st.pushed_full_results += 1;
+                    fulls += 1;
+                    if fulls >= 5 {
+                        self.st.push_fills_reached_full += 1;
+                        return Ok(true);
+                    }
+                    tokio::time::sleep(Duration::from_millis(10)).await;
+                }
+                Err(e) => return Err(format!("push through the PeerHandle failed: {e}")),
+            }
+        }
+    }
+
+    /// After an unread tail was written: give the server time to process it, judged by the on_error
+    /// saturation count (one per over-cap message) — until all `expect` were seen, or the count stopped
+    /// moving for 250 ms (the reader is legitimately waiting for room in the outbound queue), or 3 s.
+    async fn await_tail_processed(&mut self, base: u64, expect: u64) {
+        let t0 = Instant::now();
+        let mut last = 0u64;
+        let mut last_change = Instant::now();
+        let cur = loop {
+            let cur = self.sh.hook_saturation.load(Ordering::Relaxed).saturating_sub(base);
+            self.drain_events();
+            if cur >= expect {
+                break cur;
+            }
+            if cur != last {
+                last = cur;
+                last_change = Instant::now();
+            }
+            if last_change.elapsed() > Duration::from_millis(250) || t0.elapsed() > Duration::from_secs(3) {
+                break cur;
+            }
+            tokio::time::sleep(Duration::from_millis(2)).await;
+        };
+        self.st.flood_saturations_seen_before_first_read += cur.min(expect);
+        if cur >= expect {
+            self.st.flood_tails_fully_processed_before_first_read += 1;
+        } else {
+            self.st.flood_reader_stalled_on_full_queue += 1;
         }
     }
 
@@ -895,21 +1232,35 @@ impl Drv {
         let mut frames = vec![];
         let mut running = 0usize;
         let mut admitted: Vec<(Option<u64>, u64, Out)> = vec![]; // (request id or None for notify, tok, out)
+        // frames[..prefix] = everything up to and including the message that takes the last free slot
+        let mut prefix: Option<usize> = None;
+        let (mut tail_requests, mut tail_overcap, mut tail_pings) = (0u64, 0u64, 0u64);
         for it in &s.burst {
             match *it {
                 Item::Ping => {
                     let (id, tok) = (self.new_id(), self.new_tok());
                     self.pending.insert(id, Exp::Ping { tok });
                     frames.push(req_frame(id, false, "/ping", &json!({ "tok": tok })));
+                    if prefix.is_some() {
+                        tail_pings += 1;
+                    }
                 }
                 Item::Park { out, notify } => {
                     let (id, tok) = (self.new_id(), self.new_tok());
                     let admit = self.cap == 0 || running < self.cap;
+                    if prefix.is_some() {
+                        tail_overcap += 1;
+                        tail_requests += !notify as u64;
+                    }
                     if admit {
                         running += 1;
                         self.add_gate(tok);
+                        if running == self.cap {
+                            prefix = Some(frames.len() + 1);
+                        }
                         if notify {
                             self.notify_ids.insert(id);
+                            self.st.notify_handlers_parked += 1;
                             admitted.push((None, tok, out));
                         } else {
                             self.pending.insert(id, Exp::Call { tok, out, released: false, may_reject: false });
@@ -931,13 +1282,60 @@ impl Drv {
         }
         self.st.admitted += admitted.len() as u64;
         self.saturated_now = self.cap > 0 && running == self.cap;
-        self.send_all(frames).await;
         let toks: Vec<u64> = admitted.iter().map(|a| a.1).collect();
-        if !self.await_immediates(&toks, "burst").await {
+        let base_tag = self.tag.clone();
+        let mut flood = false;
+        match (s.fill, prefix) {
+            (Fill::None, _) | (_, None) => self.send_all(frames).await,
+            (fill, Some(at)) => {
+                let tail = frames.split_off(at.min(frames.len()));
+                self.send_all(frames).await;
+                // the socket is not read from here on, until the server had its time with the tail
+                if self.await_started_unread(&toks).await {
+                    flood = true;
+                    self.tag = "unread-pipelined-burst".into();
+                    if let Fill::Push(kib) = fill {
+                        match self.fill_outbound(kib).await {
+                            Ok(true) => self.tag = "outbound-queue-full".into(),
+                            Ok(false) => {}
+                            Err(e) => {
+                                self.inconcl.push(e);
+                                return;
+                            }
+                        }
+                    }
+                    self.st.flood_scripts += 1;
+                    self.st.flood_tail_requests += tail_requests;
+                }
+                let base = self.sh.hook_saturation.load(Ordering::Relaxed);
+                // ONE flush; bounded, because a server that stopped reading could push back on a big tail
+                match tokio::time::timeout(Duration::from_secs(10), self.send_all(tail)).await {
+                    Ok(()) => {}
+                    Err(_) => {
+                        self.inconcl.push("writing the pipelined tail did not complete within 10 s".into());
+                        return;
+                    }
+                }
+                if flood {
+                    self.await_tail_processed(base, tail_overcap).await;
+                }
+            }
+        }
+        let before = (self.st.overcap_requests_rejected, self.st.pings_answered);
+        let ok = self.await_immediates(&toks, "burst").await;
+        if flood {
+            self.st.flood_tail_rejected_ec8 += (self.st.overcap_requests_rejected - before.0).min(tail_requests);
+            self.st.flood_tail_pings_answered += (self.st.pings_answered - before.1).min(tail_pings);
+        }
+        self.tag = base_tag;
+        if !ok {
             return;
         }
         if self.saturated_now {
             self.st.saturations_reached += 1;
+            if admitted.iter().any(|a| a.0.is_none()) {
+                self.st.saturations_with_notify_slots += 1;
+            }
             let (cur, _) = self.sh.gauge(self.conn);
             if cur != self.cap as u64 {
                 self.viol("C16:gauge-mismatch-at-saturation", format!("{} handlers admitted and parked, gauge reads {cur}", self.cap));
@@ -972,12 +1370,48 @@ impl Drv {
                         return;
                     }
                     self.exit_kinds.insert(out);
+                    if s.refill_after_notify && self.cap > 0 {
+                        // the slot a notify handler held must come back exactly like a request's
+                        let o = Out::pick(&mut rng);
+                        match self.admit_with_retries(o, "refill-after-notify-exit").await {
+                            Some((rid, rtok)) => {
+                                self.st.refills_after_notify_exit += 1;
+                                let at = rng.usize_below(queue.len() + 1);
+                                queue.insert(at, (Some(rid), rtok, o));
+                            }
+                            None => {
+                                if self.viols.is_empty() {
+                                    self.progress_viol(
+                                        "C16:slot-not-recovered:after-notify-exit",
+                                        format!("cap {}: a notify handler exited ({}) while {} others are parked, yet a new request was still rejected after {} rejections / 12 s", self.cap, out.name(), queue.len(), self.got8.len()),
+                                    );
+                                }
+                                return;
+                            }
+                        }
+                        if queue.len() == self.cap {
+                            // all slots taken again: one more request is rejected, an inline call gets through
+                            self.saturated_now = true;
+                            let (id, tok) = (self.new_id(), self.new_tok());
+                            self.forbidden.insert(tok, false);
+                            self.pending.insert(id, Exp::Reject);
+                            let (pid, ptok) = (self.new_id(), self.new_tok());
+                            self.pending.insert(pid, Exp::Ping { tok: ptok });
+                            let b = self.park_body(tok, Out::Ret);
+                            let before = self.st.overcap_requests_rejected;
+                            self.send_all(vec![req_frame(id, false, "/park", &b), req_frame(pid, false, "/ping", &json!({ "tok": ptok }))]).await;
+                            if !self.await_immediates(&[], "saturation-after-notify-exit").await {
+                                return;
+                            }
+                            self.st.probes_rejected_after_notify_refill += self.st.overcap_requests_rejected - before;
+                        }
+                    }
                 }
             }
             if rng.chance(1, 3) && !self.ping("between-releases").await {
                 return;
             }
-            if self.cap > 0 && refills < 2 && rng.chance(1, 4) {
+            if self.cap > 0 && refills < 2 && queue.len() < self.cap && rng.chance(1, 4) {
                 let o = Out::pick(&mut rng);
                 match self.admit_with_retries(o, "refill").await {
                     Some((rid, rtok)) => {
@@ -1119,6 +1553,11 @@ async fn run_case(case: Case, hb: Arc<Heartbeat>, pool: RtPool) -> CaseResult {
     if !case.use_default_cap {
         server = server.with_offreader_limit(case.cap);
     }
+    if case.outbound > 0 {
+        server = server.with_outbound_capacity(case.outbound);
+    }
+    let ps = sh.clone();
+    server = server.on_peer_connect(move |peer| ps.peers.lock().unwrap_or_else(|e| e.into_inner()).push(peer));
     // The server lives in its own small runtime: if a defect makes a parked handler run on the
     // reader task it blocks a worker of *that* runtime only, never the drivers that must open the gates.
     // Runtimes are pooled (thread churn); one that served a failing case is never reused.
@@ -1162,7 +1601,17 @@ async fn run_case(case: Case, hb: Arc<Heartbeat>, pool: RtPool) -> CaseResult {
             let conn = CONN_IDS.fetch_add(1, Ordering::Relaxed);
             let (tx, rx) = unbounded_channel();
             sh.ev.lock().unwrap().insert(conn, tx);
-            let stream = match tokio::net::TcpStream::connect(addr).await {
+            let connecting = async {
+                if matches!(script.fill, Fill::Push(_)) {
+                    // a small receive buffer: the server's writer gets stuck after little pushed data
+                    let sock = tokio::net::TcpSocket::new_v4()?;
+                    let _ = sock.set_recv_buffer_size(16 * 1024);
+                    sock.connect(addr).await
+                } else {
+                    tokio::net::TcpStream::connect(addr).await
+                }
+            };
+            let stream = match connecting.await {
                 Ok(s) => s,
                 Err(e) => return (vec![], vec![format!("connect failed: {e}")], Stats::default(), 0u64, vec![]),
             };
@@ -1181,6 +1630,7 @@ async fn run_case(case: Case, hb: Arc<Heartbeat>, pool: RtPool) -> CaseResult {
                 conn,
                 cap,
                 tag: tag.to_string(),
+                pushed: HashSet::new(),
                 next_id: 0,
                 next_tok: 0,
                 pending: HashMap::new(),
@@ -1257,8 +1707,11 @@ pub fn run(args: &Args) -> Report {
          gauge ≤ cap at every handler entry; the first cap off-reader messages are admitted, later requests get ec 8 with \
          their id and later notifies run nothing, and those replies plus interleaved inline pings are received before any \
          gate is opened; released handlers answer with the scripted class (panic → ec 9, same id) while the others stay \
-         parked; after all exits cap new parked requests are admitted within bounded retries and one more is rejected. \
-         distinct = (cap, route kind, middleware, burst, release order) of an executed connection script",
+         parked; after all exits cap new parked requests are admitted within bounded retries and one more is rejected; \
+         slots held by parked NOTIFY handlers count and come back the same way; with a saturated cap and a full bounded \
+         outbound queue (tiny with_outbound_capacity, unread pipelined flood, queue pre-filled with pushed notifies) every \
+         over-cap request and ping of the flood is still answered exactly once. \
+         distinct = (cap, route kind, middleware, burst, release order, outbound capacity, fill mode) of an executed connection script",
     );
     let rt = match tokio::runtime::Builder::new_multi_thread().worker_threads(6).max_blocking_threads(2048).enable_all().build() {
         Ok(r) => r,
@@ -1285,13 +1738,15 @@ pub fn run(args: &Args) -> Report {
     quiet_panics(true);
     let width = if args.thorough() { 24 } else { 16 };
     let pool: RtPool = Arc::new(Mutex::new(vec![]));
+    // stop launching new cases after this many failing ones (RV_C16_MAX_FAILING: sensitivity experiments only)
+    let max_failing: usize = std::env::var("RV_C16_MAX_FAILING").ok().and_then(|v| v.parse().ok()).unwrap_or(8);
     let results: Vec<(Case, CaseResult)> = rt.block_on(async {
         let mut out = vec![];
         let mut set = tokio::task::JoinSet::new();
         let mut it = cases.into_iter();
         let mut failing = 0;
         loop {
-            while set.len() < width && started.elapsed() < budget && failing < 8 {
+            while set.len() < width && started.elapsed() < budget && failing < max_failing {
                 match it.next() {
                     Some(c) => {
                         let hb = hb.clone();
@@ -1330,6 +1785,8 @@ pub fn run(args: &Args) -> Report {
     let mut caps_seen: HashSet<usize> = HashSet::new();
     let mut hook_sat_expected = 0u64;
     let mut hook_panic_seen_cases = 0u64;
+    let mut families: HashMap<&'static str, u64> = HashMap::new();
+    let mut outbound_seen: HashSet<usize> = HashSet::new();
     for (case, r) in &results {
         let clean = r.viols.is_empty() && r.inconcl.is_empty();
         if case.exhaustive && clean {
@@ -1338,29 +1795,12 @@ pub fn run(args: &Args) -> Report {
         caps_seen.insert(case.cap);
         for s in &case.scripts {
             rep.eval();
-            rep.distinct(&(case.cap, case.route, case.mw, &s.burst, &s.release));
+            rep.distinct(&(case.cap, case.route, case.mw, &s.burst, &s.release, case.outbound, s.fill, s.refill_after_notify));
         }
+        *families.entry(case.family).or_insert(0u64) += 1;
+        outbound_seen.insert(case.outbound);
         for st in &r.stats {
-            tot.frames += st.frames;
-            tot.admitted += st.admitted;
-            tot.overcap_requests_rejected += st.overcap_requests_rejected;
-            tot.overcap_notifies += st.overcap_notifies;
-            tot.pings_answered_during_saturation += st.pings_answered_during_saturation;
-            tot.pings_answered += st.pings_answered;
-            tot.panic_replies += st.panic_replies;
-            tot.error_replies += st.error_replies;
-            tot.return_replies += st.return_replies;
-            tot.refills += st.refills;
-            tot.instants += st.instants;
-            tot.instants_rejected += st.instants_rejected;
-            tot.recovered_slots += st.recovered_slots;
-            tot.retries += st.retries;
-            tot.max_retries = tot.max_retries.max(st.max_retries);
-            tot.rejects_seen += st.rejects_seen;
-            tot.gauge_max = tot.gauge_max.max(if case.cap == 0 { 0 } else { st.gauge_max });
-            tot.started_events += st.started_events;
-            tot.saturations_reached += st.saturations_reached;
-            tot.recovery_probe_rejected += st.recovery_probe_rejected;
+            tot.add(st, case.cap != 0);
             hook_sat_expected += st.rejects_seen + st.overcap_notifies;
         }
         for o in &r.orders {
@@ -1414,6 +1854,29 @@ pub fn run(args: &Args) -> Report {
     rep.set("recovery_retries_max_for_one_slot", json!(tot.max_retries));
     rep.set("recovery_extra_request_rejected", json!(tot.recovery_probe_rejected));
     rep.set("gauge_max_on_capped_connections", json!(tot.gauge_max));
+    let mut fam: Vec<(&str, u64)> = families.into_iter().collect();
+    fam.sort();
+    rep.set("cases_executed_by_family", json!(fam.iter().map(|(k, v)| format!("{k}={v}")).collect::<Vec<_>>()));
+    let mut obs: Vec<usize> = outbound_seen.into_iter().collect();
+    obs.sort();
+    rep.set("outbound_capacities_exercised_0_is_default", json!(obs));
+    rep.set("notify_handlers_admitted_and_parked", json!(tot.notify_handlers_parked));
+    rep.set("saturations_with_notify_handlers_holding_slots", json!(tot.saturations_with_notify_slots));
+    rep.set("slots_recovered_at_once_after_notify_exit", json!(tot.refills_after_notify_exit));
+    rep.set("extra_request_rejected_after_notify_exit_refill", json!(tot.probes_rejected_after_notify_refill));
+    rep.set("flood_scripts_tail_written_unread_in_one_flush", json!(tot.flood_scripts));
+    rep.set("flood_over_cap_requests_sent", json!(tot.flood_tail_requests));
+    rep.set("flood_over_cap_requests_answered_ec8", json!(tot.flood_tail_rejected_ec8));
+    rep.set("flood_inline_pings_answered", json!(tot.flood_tail_pings_answered));
+    rep.set("flood_saturation_hooks_seen_before_first_read", json!(tot.flood_saturations_seen_before_first_read));
+    rep.set("flood_tails_fully_processed_before_first_read", json!(tot.flood_tails_fully_processed_before_first_read));
+    rep.set("flood_reader_waiting_on_full_queue_before_first_read", json!(tot.flood_reader_stalled_on_full_queue));
+    rep.set("push_fills_outbound_queue_full_and_stable", json!(tot.push_fills_reached_full));
+    rep.set("push_fills_gave_up", json!(tot.push_fills_gave_up));
+    rep.set("pushed_notifies_accepted", json!(tot.pushed_sent));
+    rep.set("pushed_notifies_received", json!(tot.pushed_received));
+    rep.set("pushed_bytes", json!(tot.pushed_bytes));
+    rep.set("pushed_full_results", json!(tot.pushed_full_results));
     rep.set("distinct_observed_event_orders", json!(orders.len()));
     rep.set("middleware_invocations", json!(mw_calls));
     rep.set("ctx_handlers_saw_peer", json!(ctx_seen));
